@@ -72,30 +72,26 @@ Theorem C09_model_simulate_snapshot (S : ScalOps) (st : store S) (h : history) (
 Proof. exact (simulate_snapshot S st h q i n p). Qed.
 Print Assumptions C09_model_simulate_snapshot.
 
-(* in place = out of place: for every differentiable operator; for every operator on a state matrix
-   without partials; and always for the zeroth-order state *)
-Theorem C09_model_inplace_equals_outofplace_diffop (S : ScalOps) (o : dop S) (vs : value S) :
-  apply_value (VOp (DOp o)) vs true = apply_value (VOp (DOp o)) vs false.
-Proof. exact (inplace_equals_outofplace_diffop S o vs). Qed.
-Print Assumptions C09_model_inplace_equals_outofplace_diffop.
+(* in place = out of place, for every operator (differentiable, non-differentiable, MultiOperator) and every state
+   matrix, partials included *)
+Theorem C09_model_inplace_equals_outofplace (S : ScalOps) (vo vs : value S) :
+  apply_value vo vs true = apply_value vo vs false.
+Proof. exact (inplace_equals_outofplace S vo vs). Qed.
+Print Assumptions C09_model_inplace_equals_outofplace.
 
-Theorem C09_model_inplace_equals_outofplace_partial (S : ScalOps) (vo : value S) (s : smval S) :
-  d_p1 (sv_d s) = [] -> d_p2 (sv_d s) = [] ->
-  apply_value vo (VSm s) true = apply_value vo (VSm s) false.
-Proof. exact (inplace_equals_outofplace_nopartials S vo s). Qed.
-Print Assumptions C09_model_inplace_equals_outofplace_partial.
-
-Theorem C09_model_inplace_equals_outofplace_main (S : ScalOps) (vo vs : value S) :
-  main_of S (apply_value vo vs true) = main_of S (apply_value vo vs false).
-Proof. exact (inplace_equals_outofplace_main S vo vs). Qed.
-Print Assumptions C09_model_inplace_equals_outofplace_main.
-
-(* ... and FALSE in general for the code that exists (the model is faithful): a non-differentiable operator
-   applied out of place drops the partials of its input, in place it keeps them *)
-Theorem C09_inplace_equals_outofplace_refuted :
-  exists (vo vs : value QIops), apply_value vo vs true <> apply_value vo vs false.
-Proof. exact inplace_equals_outofplace_refuted. Qed.
-Print Assumptions C09_inplace_equals_outofplace_refuted.
+(* out-of-place application of a non-differentiable operator preserves its input (state and partials) and returns
+   the transformed state with every partial of the input transformed by the operator -- none dropped *)
+Theorem C09_model_plain_outofplace_keeps_partials (S : ScalOps) (st : store S) (o s : nat) (p : op S) (sv : smval S) :
+  look st o = VOp (DPlain p) -> look st s = VSm sv -> s < length st ->
+  look (fst (sem st (CApply o s false))) s = VSm sv /\
+  exists q, (sv_nmax sv = None -> q = p) /\
+    snd (sem st (CApply o s false)) =
+    VSm (mkSmv (mkD (apply q (d_main (sv_d sv))) (map_partials q (d_p1 (sv_d sv))) (map_partials q (d_p2 (sv_d sv)))
+                    (d_ok (sv_d sv))) (sv_nmax sv)) /\
+    length (map_partials q (d_p1 (sv_d sv))) = length (d_p1 (sv_d sv)) /\
+    length (map_partials q (d_p2 (sv_d sv))) = length (d_p2 (sv_d sv)).
+Proof. exact (plain_outofplace_keeps_partials S st o s p sv). Qed.
+Print Assumptions C09_model_plain_outofplace_keeps_partials.
 
 (* non-vacuity: a history with a reused operator and a repeated simulate evaluates to the expected values *)
 Example C09_example :
